@@ -83,6 +83,10 @@ fn on_page0(p: &PacketT, _: usize, _: &[PacketT], wi: usize) -> bool {
 fn tdh_after_with_prev_bc(p: &PacketT, _: usize, _: &[PacketT], wi: usize) -> bool {
     p.words[..wi].iter().rev().find(|w| matches!(w.kind, WKind::Tdh | WKind::TdhAfter | WKind::TdhCont)).map_or(false, |w| words::Tdh::decode(&w.bytes).bc > 0)
 }
+/// a TDH whose predecessor word (in the same payload) is a TDT with packet_done = 1
+fn after_tdt_done(p: &PacketT, _: usize, _: &[PacketT], wi: usize) -> bool {
+    wi >= 1 && p.words[wi - 1].kind == WKind::Tdt && p.words[wi - 1].bytes[8] & 0x01 != 0
+}
 /// a CDW that is not the first CDW of its link
 fn cdw_not_first(p: &PacketT, li: usize, link: &[PacketT], _wi: usize) -> bool {
     let _ = p;
@@ -186,6 +190,8 @@ pub fn catalogue() -> Vec<Fault> {
         rdhf!("its.stop bit cleared on the stop page (DDW0)", &["E110"], ItsRunning, stop_page, |r| r.stop_bit = 0),
         rdhf!("its.page counter 0 on the stop page (DDW0)", &["E111"], ItsRunning, stop_page, |r| r.pages_counter = 0),
         wordf!("tdh.continuation set after IHW", &["E42"], ItsRunning, &[WKind::Tdh], any_word, |w, _| w[1] |= 0x40),
+        // documented: "TDH following a TDT with packet_done == 1: TDH continuation == 0" (the common multi-trigger page)
+        wordf!("tdh.continuation set after TDT(done)", &["E42"], ItsRunning, &[WKind::TdhAfter], after_tdt_done, |w, _| w[1] |= 0x40),
         wordf!("tdh.orbit != RDH orbit", &["E444"], ItsRunning, &[WKind::Tdh], any_word, |w, _| w[4] ^= 0x01),
         wordf!("tdh.bc != RDH bc on page 0", &["E445"], ItsRunning, &[WKind::Tdh], on_page0, |w, _| w[2] ^= 0x04),
         wordf!("tdh.trigger type != RDH trigger on page 0", &["E44"], ItsRunning, &[WKind::Tdh], on_page0, |w, _| w[1] ^= 0x08),
